@@ -81,10 +81,25 @@ func genMessage(ch *Chooser) (*sse.Message, []msgOp) {
 		switch ch.Weighted([]int{6, 2, 2, 2, 2}, "message op") {
 		case 0:
 			s := pick(encStrings, "data")
+			if ch.Chance(1, 6, "variadic append") {
+				// AppendData(a, b) is AppendData(a) followed by AppendData(b); no arguments append nothing
+				s2 := pick(encStrings, "data")
+				m.AppendData()
+				m.AppendData(s, s2)
+				ops = append(ops, msgOp{"AppendData", s}, msgOp{"AppendData", s2})
+				break
+			}
 			m.AppendData(s)
 			ops = append(ops, msgOp{"AppendData", s})
 		case 1:
 			s := pick(encStrings, "comment")
+			if ch.Chance(1, 6, "variadic append") {
+				s2 := pick(encStrings, "comment")
+				m.AppendComment()
+				m.AppendComment(s, s2)
+				ops = append(ops, msgOp{"AppendComment", s}, msgOp{"AppendComment", s2})
+				break
+			}
 			m.AppendComment(s)
 			ops = append(ops, msgOp{"AppendComment", s})
 		case 2:
@@ -181,6 +196,14 @@ func runEncodeWorld(rc *RunCtx) (out *Outcome) {
 	}
 	if len(full) > 0 && !strings.Contains(string(ops2ids(ops)), "\x00") {
 		var back sse.Message
+		if ch.Chance(1, 4, "decode into a used message") {
+			// "previous fields present on the Message will be overwritten"
+			dirty, _ := genMessage(ch)
+			dirty.AppendData("left over")
+			dirty.ID, dirty.Type, dirty.Retry = sse.ID("old"), sse.Type("old"), time.Hour
+			back = *dirty
+			o.probe("decoded into a message that held other fields")
+		}
 		input := append([]byte(nil), full...) // the caller's buffer, reused after the call
 		uerr := back.UnmarshalText(input)
 		for i := range input {
